@@ -18,6 +18,7 @@ the model's programs must agree (`lower_elementwise_size_generic` / `lower_reduc
 A disagreement is a broken tie (`ctx.tie_broken`), not a violation by itself.
 """
 import json
+import random
 
 from lib import gen, graphcap
 
@@ -51,7 +52,8 @@ EXTRA = [
 
 def lower_tie(ctx, n, SizedCall, variants, prefix="lower"):
     drv = ctx.driver()
-    rng = ctx.rng
+    # an own generator (seeded by VERIF_SEED): the call streams of the checks that run this tie stay what they were
+    rng = random.Random(f"lower_tie:{ctx.seed}")
     done = 0
     tries = 0
     extra = list(EXTRA)          # all hand-written calls on every run, then generated ones
